@@ -549,17 +549,20 @@ func unsubCaseB(c *verdict.Ctx, s sink, idx int) {
 			}
 		}
 		if len(open) > 0 {
+			// received so far = noted by the reader + still in the channel (a message being moved
+			// from one to the other is in neither for an instant, hence the threshold below)
+			seenBy := func(h *ucHandle) int { return len(h.snapshot()) + len(h.sub.Out()) }
 			before := make([]int, len(open))
 			for i, h := range open {
-				before[i] = len(h.snapshot())
+				before[i] = seenBy(h)
 			}
 			for i := 0; i < 5; i++ {
 				u.publish(true)
 			}
 			u.barrier()
 			for i, h := range open {
-				fed := len(h.snapshot()) - before[i]
-				if fed > 0 {
+				fed := seenBy(h) - before[i]
+				if fed >= 2 {
 					fail("pubsub-handle-served-but-unregistered-after-racing-"+sp.Variant,
 						fmt.Sprintf("a handle for %q returned by Subscribe (clock %d..%d) is still fed (%d of 5 probe messages) and not cancelled although UnsubscribeAll reports ErrSubscriptionNotFound and NumClientSubscriptions(c)=%d: the client can no longer unsubscribe it",
 							h.query, h.a0, h.a1, fed, u.srv.NumClientSubscriptions("c")))
